@@ -146,7 +146,7 @@ theorem AllocMono_of_allocs_append (q q' : Queue) (extra : List Alloc) (h : q'.a
   unfold Queue.findAlloc at ha ⊢
   rw [h, List.find?_append, ha]; rfl
 
-theorem QPrim.allocMono {c : Consts} {a b : Queue} (h : QPrim c a b) : AllocMono a b := by
+theorem QPrim.allocMono {c : Consts} {P : Nat → AIn → Prop} {a b : Queue} (h : QPrim c P a b) : AllocMono a b := by
   cases h with
   | sync => exact Queue.sync_AllocMono _ _ _
   | bumpErr => exact Queue.bumpErr_AllocMono _ _ _
@@ -158,7 +158,7 @@ theorem QPrim.allocMono {c : Consts} {a b : Queue} (h : QPrim c a b) : AllocMono
     exact AllocMono_of_allocs_append _ _ extra h
   | pause => exact AllocMono_of_allocs_append _ _ [] (by simp)
 
-theorem QTrans.allocMono {c : Consts} {a b : Queue} (h : QTrans c a b) : AllocMono a b :=
+theorem QTrans.allocMono {c : Consts} {P : Nat → AIn → Prop} {a b : Queue} (h : QTrans c P a b) : AllocMono a b :=
   QTrans.lift AllocMono AllocMono.refl (fun _ _ _ => AllocMono.trans) (fun _ _ h => h.allocMono) h
 
 /-! ### `active` is only ever switched on by `resume`; parameters never change -/
@@ -171,7 +171,7 @@ theorem Queue.bumpErr_active (c : Consts) (q : Queue) (a : Nat) :
     (q.bumpErr c a).1.active = q.active ∧ (q.bumpErr c a).1.params = q.params ∧ (q.bumpErr c a).1.lim = q.lim := by
   unfold Queue.bumpErr; split <;> exact ⟨rfl, rfl, rfl⟩
 
-theorem QPrim.paused {c : Consts} {a b : Queue} (h : QPrim c a b) (hp : a.active = false) : b.active = false := by
+theorem QPrim.paused {c : Consts} {P : Nat → AIn → Prop} {a b : Queue} (h : QPrim c P a b) (hp : a.active = false) : b.active = false := by
   cases h with
   | sync => rw [(Queue.sync_active _ _ _).1]; exact hp
   | bumpErr => rw [(Queue.bumpErr_active _ _ _).1]; exact hp
@@ -181,11 +181,11 @@ theorem QPrim.paused {c : Consts} {a b : Queue} (h : QPrim c a b) (hp : a.active
     rw [h]; exact hp
   | pause => rfl
 
-theorem QTrans.paused {c : Consts} {a b : Queue} (h : QTrans c a b) : a.active = false → b.active = false :=
+theorem QTrans.paused {c : Consts} {P : Nat → AIn → Prop} {a b : Queue} (h : QTrans c P a b) : a.active = false → b.active = false :=
   QTrans.lift (fun a b => a.active = false → b.active = false) (fun _ h => h) (fun _ _ _ h1 h2 h => h2 (h1 h))
     (fun _ _ h => h.paused) h
 
-theorem QPrim.params {c : Consts} {a b : Queue} (h : QPrim c a b) : b.params = a.params := by
+theorem QPrim.params {c : Consts} {P : Nat → AIn → Prop} {a b : Queue} (h : QPrim c P a b) : b.params = a.params := by
   cases h with
   | sync => exact (Queue.sync_active _ _ _).2
   | bumpErr => exact (Queue.bumpErr_active _ _ _).2.1
@@ -195,7 +195,7 @@ theorem QPrim.params {c : Consts} {a b : Queue} (h : QPrim c a b) : b.params = a
     exact h
   | pause => rfl
 
-theorem QTrans.params {c : Consts} {a b : Queue} (h : QTrans c a b) : b.params = a.params :=
+theorem QTrans.params {c : Consts} {P : Nat → AIn → Prop} {a b : Queue} (h : QTrans c P a b) : b.params = a.params :=
   QTrans.lift (fun a b => b.params = a.params) (fun _ => rfl) (fun _ _ _ h1 h2 => h2.trans h1) (fun _ _ h => h.params) h
 
 end HqModel.AutoAlloc
